@@ -133,6 +133,8 @@ def run(facts, rep, tier):
     # 5 FLOATKIND
     floatkind(F, rep)
     tuple1(F, rep)
+    writeorder(F, rep)
+    bytesem(F, rep)
 
     # 6 LINESEP
     linesep(F, rep, fm)
@@ -558,6 +560,211 @@ def floatkind(F, rep):
                         "re-parses as an int literal (the numeric kind, and so `/`-vs-`//` typing, changes)"
                         % ("f64: Display (to_string)" if display_only else "a renderer that is not float-preserving"),
                         file=fl.file, line=sw["ln"], fn=fl.path))
+
+
+WRITE_ORDER = (
+    # formatter function, markers in the order the parser consumes them (a callee suffix or a written literal)
+    ("Formatter::format_function", ("write_visibility", "async ", "def ")),
+    ("Formatter::format_method", ("async ", "def ")),
+    ("Formatter::format_const", ("write_visibility", "const ")),
+    ("Formatter::format_model", ("write_visibility", "model ")),
+    ("Formatter::format_class", ("write_visibility", "class ")),
+    ("Formatter::format_trait", ("write_visibility", "trait ")),
+    ("Formatter::format_enum", ("write_visibility", "enum ")),
+)
+
+
+def writeorder(F, rep):
+    """WRITEORDER — declaration markers are written in the order the parser consumes them (`pub`, then `async`, then
+    the keyword): no marker that comes later in that order can be written on a path that still reaches the write of an
+    earlier one. (`async pub def f` does not parse: `declaration()` takes `pub` before it dispatches on `async`/`def`.)"""
+    n = 0
+    for suf, order in WRITE_ORDER:
+        f = F.one_fn(suf)
+        if f is None:
+            continue
+        blocks = {}
+        for item in order:
+            hits = []
+            for bi, t in f.calls():
+                cn = callee_name(t) or ""
+                if item.endswith(" "):
+                    if cn.endswith("FormatWriter::write") and len(t["args"]) > 1 and \
+                            (const_str(t["args"][1]) or _resolve(f, t["args"][1])) == item:
+                        hits.append(bi)
+                elif cn.endswith("::" + item):
+                    hits.append(bi)
+            blocks[item] = hits
+        for i, a in enumerate(order):
+            for b in order[i + 1:]:
+                if not blocks[a] or not blocks[b]:
+                    continue
+                n += 1
+                bad = [(x, y) for y in blocks[b] for x in blocks[a] if x in f.reachable(y) and x != y]
+                inst = "%s:%s<%s" % (suf.split("::")[-1], a.strip(), b.strip())
+                rep.oblige("WRITEORDER", inst, not bad, sample={"rule": "WRITEORDER", "fn": f.path, "first": a.strip(),
+                                                                "then": b.strip(), "holds": not bad})
+                if bad:
+                    rep.add(Finding("WRITEORDER", "WRITEORDER|%s|%s-after-%s" % (suf.split("::")[-1], a.strip(), b.strip()),
+                                    "%s can write `%s` after `%s`: the parser consumes `%s` first, so the formatted "
+                                    "declaration no longer parses" % (suf.split("::")[-1], a.strip(), b.strip(),
+                                                                      a.strip()), file=f.file,
+                                    line=f.term(bad[0][0]).get("ln"), fn=f.path))
+    rep.floor("WRITEORDER", "ordered marker pairs checked", n, 6)
+
+
+BYTE_CASES = (
+    # byte value, what must be written for it: 'esc' = a backslash then the byte itself, 'raw' = the byte itself,
+    # 'hex' = a \xNN escape
+    (0x22, "esc"), (0x5C, "esc"), (0x41, "raw"), (0x20, "raw"), (0x7E, "raw"), (0x27, "raw"),
+    (0x07, "hex"), (0x1F, "hex"), (0x7F, "hex"), (0xC3, "hex"), (0x0A, "hex|named"),
+)
+
+
+def bytesem(F, rep):
+    """BYTESEM — what the Bytes arm of format_literal writes for ONE byte, decided per byte value by propagating the
+    value through every comparison / match on it (assume-and-propagate; the order of the tests matters and is followed):
+    the quote and the backslash are written escaped, other printable ASCII raw, everything else as an escape the byte
+    lexer decodes."""
+    fl = F.one_fn("Formatter::format_literal")
+    if fl is None:
+        return
+    sw = primary_dispatch(fl, AST + "Literal")
+    regs = arm_regions(fl, sw) if sw else {}
+    reg = regs.get("Bytes")
+    if not reg:
+        return
+    nexts = [b for b in reg if fl.term(b)["t"] == "call" and (callee_generic(fl.term(b)) or "").endswith("Iterator::next")]
+    if not nexts:
+        # no explicit per-byte loop (iterator pipeline, library escaper): this clause is not decided here; the ESCAPE
+        # rule models library escapers against the byte lexer
+        rep.notes.append("BYTESEM: no per-byte loop in the Bytes arm; not decided by this rule")
+        return
+    head = nexts[0]
+
+    def classify_write(t):
+        a = t["args"][1] if len(t["args"]) > 1 else None
+        v = (const_str(a) or _resolve(fl, a)) if a is not None else None
+        if v is not None:
+            return "lit:" + v
+        # a String built from the byte: to_string of a char cast, or format!("\\x{:02x}")
+        pl = op_place(a) if a is not None else None
+        cur = pl["l"] if pl is not None else None
+        for _ in range(8):
+            if cur is None:
+                break
+            d = fl.single_def(cur)
+            if d is None:
+                break
+            if d[2] == "call":
+                g = callee_generic(d[3]) or callee_name(d[3]) or ""
+                if g.endswith("to_string") or "ToString" in g:
+                    return "raw"
+                if g.endswith("fmt::format") or g.endswith("format::format_inner") or "alloc::fmt::format" in g:
+                    return "hex"
+                nxt = op_place(d[3]["args"][0]) if d[3]["args"] else None
+                cur = nxt["l"] if nxt is not None else None
+                continue
+            if d[2] == "assign" and d[3]["r"] in ("ref", "cfd"):
+                cur = d[3]["p"]["l"]
+            elif d[2] == "assign" and d[3]["r"] in ("use", "cast") and op_place(d[3]["o"]) is not None:
+                cur = op_place(d[3]["o"])["l"]
+            else:
+                break
+        return "?"
+
+    def u8_operand(o):
+        pl = op_place(o)
+        if pl is None:
+            return False
+        ty = fl.local_ty(pl["l"])
+        return ty.replace("&", "").strip() == "u8" or (any(e[0] == "deref" for e in pl["p"]) and "u8" in ty)
+
+    for val, want in BYTE_CASES:
+        seqs = set()
+        todo = [(s2, (), ()) for s2 in fl.succs()[head] if s2 in reg]
+        seen = set()
+        while todo:
+            b, env, trace = todo.pop()
+            if (b, env, trace) in seen or len(trace) > 4:
+                continue
+            seen.add((b, env, trace))
+            if b == head:
+                seqs.add(trace)
+                continue
+            if b not in reg:
+                continue
+            e = dict(env)
+            for st in fl.stmts(b):
+                if st["s"] != "assign" or st["d"]["p"]:
+                    continue
+                rv = st["rv"]
+                dl = st["d"]["l"]
+                res = None
+                if rv["r"] == "bin" and rv["op"] in ("Eq", "Ne", "Lt", "Le", "Gt", "Ge"):
+                    ka = byte_const(rv["a"]["c"]) if "c" in rv["a"] else None
+                    kb = byte_const(rv["b"]["c"]) if "c" in rv["b"] else None
+                    if kb is not None and u8_operand(rv["a"]):
+                        x, y = val, kb
+                    elif ka is not None and u8_operand(rv["b"]):
+                        x, y = ka, val
+                    else:
+                        x = y = None
+                    if x is not None:
+                        res = {"Eq": x == y, "Ne": x != y, "Lt": x < y, "Le": x <= y, "Gt": x > y, "Ge": x >= y}[rv["op"]]
+                elif rv["r"] == "use":
+                    pl = op_place(rv["o"])
+                    if pl is not None and not pl["p"]:
+                        res = e.get(pl["l"])
+                elif rv["r"] == "un" and rv["op"] == "Not":
+                    pl = op_place(rv["o"])
+                    v0 = e.get(pl["l"]) if pl is not None and not pl["p"] else None
+                    res = (not v0) if v0 is not None else None
+                if res is None:
+                    e.pop(dl, None)
+                else:
+                    e[dl] = res
+            t = fl.term(b)
+            succ = [x for x in fl.succs()[b]]
+            tr = trace
+            if t["t"] == "switch":
+                pl = op_place(t["on"])
+                if t.get("ty") == "bool" and pl is not None and not pl["p"] and pl["l"] in e:
+                    succ = [t["otherwise"]] if e[pl["l"]] else [x for v2, x in t["targets"] if v2 == "0"]
+                elif t.get("ty") == "u8":
+                    hit = [x for v2, x in t["targets"] if v2 == str(val)]
+                    succ = hit or [t["otherwise"]]
+            elif t["t"] == "call":
+                if (callee_name(t) or "").endswith("FormatWriter::write"):
+                    tr = trace + (classify_write(t),)
+                if not t["d"]["p"]:
+                    e.pop(t["d"]["l"], None)
+                succ = [t["to"]] if t.get("to") is not None else []
+            env2 = tuple(sorted(e.items()))
+            for s2 in succ:
+                todo.append((s2, env2, tr))
+        def norm(seq):
+            if seq == ("lit:\\", "raw"):
+                return "esc"
+            if seq == ("raw",):
+                return "raw"
+            if seq == ("hex",):
+                return "hex"
+            if len(seq) == 1 and seq[0].startswith("lit:\\") and len(seq[0]) == 6:
+                return "named"
+            return "other:" + ",".join(seq)
+        got = sorted({norm(x) for x in seqs})
+        ok = len(got) == 1 and got[0] in want.split("|")
+        inst = "byte:0x%02X" % val
+        rep.oblige("BYTESEM", inst, ok, sample={"rule": "BYTESEM", "byte": "0x%02X" % val, "written_as": got,
+                                                "expected": want})
+        if not ok:
+            rep.add(Finding("BYTESEM", "BYTESEM|format_literal|0x%02X" % val,
+                            "for the byte 0x%02X the Bytes arm writes %s, expected %s: %s" % (
+                                val, got, want,
+                                "the quote / backslash is printed raw and the literal no longer lexes to the same "
+                                "bytes" if want == "esc" else "the literal's bytes change when re-lexed"),
+                            file=fl.file, line=sw["ln"], fn=fl.path))
 
 
 def tuple1(F, rep):
